@@ -406,6 +406,29 @@ class Check:
         return 0 if ok else 1
 
 
+CRASH_MARKS = ("panic:", "fatal error:", "SIGSEGV", "all goroutines are asleep")
+
+
+def crash_violation(ck, err, outp, hs, rerun, what):
+    """The Go harness process died.  The harnesses write their output unbuffered, one '#end' per finished scenario, so the
+    scenario that was running is known; it is re-run alone and, if the process dies again, reported as the failing input.
+    rerun(h) -> error text or None.  Returns True when a concrete violation was reported."""
+    if not err or not any(m in err for m in CRASH_MARKS):
+        return False
+    done = 0
+    if os.path.exists(outp):
+        done = sum(1 for l in open(outp, errors="replace").read().split("\n") if l.strip() == "#end")
+    for cand in (done, done - 1, done + 1):
+        if 0 <= cand < len(hs):
+            e = rerun(hs[cand])
+            if e and any(m in e for m in CRASH_MARKS):
+                top = [l for l in e.split("\n") if any(m in l for m in CRASH_MARKS)][:1] + [l.strip() for l in e.split("\n") if "/repo/" in l][:3]
+                ck.violation({"kind": "crash", "history": hs[cand], "crash": e[-2500:], "verdict": "the process died while running this history (%s)" % what},
+                             "%s: the process crashed on a %d-event history: %s" % (what, len(hs[cand]), " | ".join(top)[:400]))
+                return True
+    return False
+
+
 def validate_evidence(ev):
     try:
         import jsonschema
